@@ -100,8 +100,26 @@ def type_check_of(body):
     late = [a for t, a in ev[k:] if t == 'cast']
     return upfront, first, late
 
+# the generic entry points the containers reach their elements through (src/Alloc.c, src/Assign.c): which instance they
+# consult and what they fall back to
+GENERIC = {'Alloc.c': ['destruct', 'construct_with', 'copy'], 'Assign.c': ['assign']}
+GEN_CALL = re.compile(r'\binstance\s*\(\s*self\s*,\s*(\w+)\s*\)|\b\w+\s*->\s*(destruct|construct_with|copy|assign)\s*\(|\b(alloc|assign|memcpy|throw|dealloc|free)\s*\(')
+
+def generic_of(body):
+    out = []
+    for m in GEN_CALL.finditer(body):
+        if m.group(1): out.append('instance(' + m.group(1) + ')')
+        elif m.group(2): out.append('->' + m.group(2))
+        else: out.append(m.group(3))
+    return out
+
 def gen_own(repo):
     rows = []
+    generic = []
+    for fname, funcs in GENERIC.items():
+        gsrc = strip_comments(read(f'{repo}/src/{fname}'))
+        for f in funcs: generic.append((f, generic_of(func_body(gsrc, f))))
+    copyswap = []
     for fname, funcs in FUNCS.items():
         src = read(f'{repo}/src/{fname}')
         for f in funcs:
@@ -120,6 +138,7 @@ def gen_own(repo):
             parts = split_top(text[im.end():e - 1])
             if parts and parts[0] in ('New', 'Assign', 'Push', 'Concat', 'Get', 'Resize', 'Sort'):
                 insts.append((tname, parts[0], parts[1:]))
+            if parts and parts[0] in ('Copy', 'Swap'): copyswap.append((tname, parts[0]))
     checks, unknown = [], []
     for fname, funcs in FUNCS.items():
         src = read(f'{repo}/src/{fname}')
@@ -138,6 +157,8 @@ def gen_own(repo):
                          for f, up, first, late in checks)
     ubody = ', '.join(f'({lean_str(f)}, {lean_list([lean_str(x) for x in xs])})' for f, xs in unknown)
     body = ',\n  '.join(f'({lean_str(f)}, {lean_list([lean_str(c) for c in calls])})' for f, calls in rows)
+    gbody = ',\n  '.join(f'({lean_str(f)}, {lean_list([lean_str(c) for c in calls])})' for f, calls in generic)
+    csbody = ', '.join(f'({lean_str(t)}, {lean_str(c)})' for t, c in copyswap)
     ibody = ',\n  '.join(f'({lean_str(t)}, {lean_str(c)}, {lean_list([lean_str(x) for x in fs])})' for t, c, fs in insts)
     return HEADER + f"""namespace CelloGen.Own
 
@@ -158,6 +179,14 @@ def unmodelledCallees : List (String × List String) := [{ubody}]
 /-- the New / Assign / Push / Concat / Get / Resize / Sort instances the container types register -/
 def instances : List (String × String × List String) := [
   {ibody}]
+
+/-- the generic entry points of src/Alloc.c / src/Assign.c through which containers reach their elements: the instance
+    consulted, the call through it, and the fallback, in textual order -/
+def generic : List (String × List String) := [
+  {gbody}]
+
+/-- container types (Array, List, Table, Tree, Box) that register their own Copy or Swap instance -/
+def copySwapInstances : List (String × String) := [{csbody}]
 
 end CelloGen.Own
 """
